@@ -7,7 +7,7 @@ from typing import Any, Dict, List, Optional, Set, Tuple
 
 from .. import rx
 from ..report import AnalysisError, Ctx
-from ..values import AbsList, NewNode, Str, Sym, TokV
+from ..values import AbsList, NewNode, RefV, Str, Sym, TokV
 from .common import grammar_module
 
 EXPLANATION = (
@@ -458,39 +458,202 @@ def _duration_pattern(ctx: Ctx, env, alpha, rules, rule_of_kind):
               f"capture groups are {letters}; unpack() returns them as (sign, years, months, days, hours, minutes, seconds)", where)
     dur = repo.classes.get("odata_query.ast.Duration")
     if dur and "unpack" in dur.methods and "py_val" in dur.methods:
-        un = dur.methods["unpack"]
-        names = None
-        for n in ast.walk(un):
-            if isinstance(n, ast.Assign) and isinstance(n.targets[0], ast.Tuple) and isinstance(n.value, ast.Call) and "groups" in ast.unparse(n.value):
-                names = [e.id for e in n.targets[0].elts if isinstance(e, ast.Name)]
-        ctx.check(names == ["sign", "years", "months", "days", "hours", "minutes", "seconds"], "R5.duration-groups-in-order", "Duration.unpack",
-                  f"unpack() names the groups {names}", am.loc(un))
-        rets = [n for n in ast.walk(un) if isinstance(n, ast.Return) and isinstance(n.value, ast.Tuple)]
-        if rets:
-            r_names = [ast.unparse(e).lstrip("_") for e in rets[-1].value.elts]
-            ctx.check(r_names == ["sign", "years", "months", "days", "hours", "minutes", "seconds"], "R5.duration-groups-in-order", "Duration.unpack|return",
-                      f"unpack() returns {r_names}", am.loc(rets[-1]))
-        pv = dur.methods["py_val"]
-        src = ast.unparse(pv)
-        consts = {}
-        for n in ast.walk(pv):
-            if isinstance(n, ast.BinOp) and isinstance(n.op, ast.Mult):
-                for a, b in ((n.left, n.right), (n.right, n.left)):
-                    if isinstance(b, ast.Constant) and isinstance(b.value, (int, float)):
-                        for nm in ("years", "months"):
-                            if nm in ast.unparse(a):
-                                consts[nm] = b.value
-        ctx.check(consts.get("years") == 365.25, "R5.duration-constants", "years", f"a year counts {consts.get('years')} days; documented: 365.25", am.loc(pv),
-                  "x eq duration'P1Y'")
-        ctx.check(consts.get("months") == 30.44, "R5.duration-constants", "months", f"a month counts {consts.get('months')} days; documented: 30.44", am.loc(pv),
-                  "x eq duration'P1M'")
-        kw = {}
-        for n in ast.walk(pv):
-            if isinstance(n, ast.Call) and ast.unparse(n.func).endswith("timedelta"):
-                for k in n.keywords:
-                    kw[k.arg] = ast.unparse(k.value)
-        ok = "days" in kw and "hours" in kw.get("hours", "") and "minutes" in kw.get("minutes", "") and "seconds" in kw.get("seconds", "")
-        ctx.check(ok, "R5.duration-parts-to-timedelta", "Duration.py_val", f"timedelta receives {kw}: each part must feed the field of the same name", am.loc(pv),
-                  "x eq duration'PT1H'")
-        neg = "sign" in src and ("-1" in src or "-delta" in src or "- delta" in src)
-        ctx.check(neg, "R5.duration-sign", "Duration.py_val", "a leading '-' must negate the duration", am.loc(pv), "x eq duration'-P1D'")
+        _duration_methods(ctx, env, dur, dp)
+
+
+# ------------------------------------------------------------------------------------------------------------------
+# Duration.unpack / Duration.py_val, evaluated (not read): what the capture groups become, what py_val computes
+# ------------------------------------------------------------------------------------------------------------------
+TIMEDELTA_POSITIONAL = ["days", "seconds", "microseconds", "milliseconds", "minutes", "hours", "weeks"]
+PARTS = ["sign", "years", "months", "days", "hours", "minutes", "seconds"]
+DAYS_PER = {1: 365.25, 2: 30.44, 3: 1.0}
+
+
+def _duration_methods(ctx: Ctx, env, dur, dp):
+    from ..interp import Interp, KindEnv
+    from ..values import Const, NodeV, PyTuple, PyList
+    repo = env.repo
+    am = dur.module
+    un, pv = dur.methods["unpack"], dur.methods["py_val"]
+
+    # ---- unpack(): (group 1, group k+1 without its designator letter or None) --------------------------------------
+    it = Interp(repo, env.schema, KindEnv(env.schema))
+    paths = it.explore(lambda _it: (am, un, [NodeV("node", {"Duration"})], {}, dur.qual))
+    ctx.floor("paths through Duration.unpack", len(paths), 2)
+
+    def group_index(v) -> Optional[int]:
+        """elem(<anchored match of DURATION_PATTERN on node.val>.groups(), k) -> k"""
+        if not (isinstance(v, Sym) and v.op == "elem" and isinstance(v.args[1], int)):
+            return None
+        g = v.args[0]
+        if not (isinstance(g, Sym) and g.op == "call" and isinstance(g.args[0], Sym) and g.args[0].op == "attr" and g.args[0].args[1] == "groups"):
+            return None
+        m = g.args[0].args[0]
+        if not (isinstance(m, Sym) and m.op == "call" and isinstance(m.args[0], Sym) and m.args[0].op == "attr"):
+            return None
+        rxv, meth = m.args[0].args[0], m.args[0].args[1]
+        if not (isinstance(rxv, Sym) and rxv.op == "regex" and rxv.args[0] == dp.pattern):
+            return None
+        anchored = meth == "fullmatch" or (meth == "match" and dp.pattern.endswith(("$", "\\Z")))
+        if not anchored or len(m.args[1]) != 1 or "field(node,'val')" not in repr(m.args[1][0]):
+            return None
+        return v.args[1]
+
+    def stripped_group(v) -> Optional[int]:
+        """group text without its last character (the designator letter)"""
+        if isinstance(v, Sym) and v.op == "getslice":
+            sl = v.args[1]
+            if isinstance(sl, Sym) and sl.op == "slice":
+                lo, hi = sl.args[0], sl.args[1]
+                st = sl.args[2] if len(sl.args) > 2 else Const(None)
+                if isinstance(lo, Const) and lo.v in (None, 0) and isinstance(hi, Const) and hi.v == -1 and isinstance(st, Const) and st.v in (None, 1):
+                    return group_index(v.args[0])
+        if isinstance(v, Str) and len(v.parts) == 1 and v.parts[0][0] == "dyn":
+            tr = [tuple(t) for t in v.parts[0][2]]
+            if len(tr) == 1 and tr[0][0] == "slice" and tr[0][1] in (None, 0) and tr[0][2] == -1:
+                return group_index(v.parts[0][1])
+        return None
+
+    ok_all = True
+    n_ret = 0
+    for x in paths:
+        if x.outcome != "return":
+            q = it.exc_class(x.value)
+            ctx.check(q == "builtins.ValueError", "R5.duration-unpack", "unpack|raise", f"unpack() raises {q}; only ValueError (no match) is expected", x.where)
+            continue
+        n_ret += 1
+        v = x.value
+        items = list(v.items) if isinstance(v, (PyTuple, PyList)) else None
+        if items is None or len(items) != 7:
+            ctx.fail("R5.duration-unpack", "unpack|shape", f"unpack() returns {v!r}, not the 7-tuple (sign, years, months, days, hours, minutes, seconds)", am.loc(un))
+            ok_all = False
+            break
+        conds = dict(x.conds)
+        for k, item in enumerate(items):
+            if k == 0:
+                good = group_index(item) == 0 or (isinstance(item, Const) and item.v is None and any(
+                    c.startswith("truth(") and ",0))" in c and val is False for c, val in x.conds))
+                what = "the sign group as matched"
+            elif isinstance(item, Const) and item.v is None:
+                # None exactly when that group did not take part in the match
+                falsy = [c for c, val in x.conds if val is False and c.startswith("truth(elem(") and c.endswith(f",{k}))")]
+                good = bool(falsy)
+                what = "None only when the group is absent"
+            else:
+                good = stripped_group(item) == k
+                what = f"capture group {k + 1} without its designator letter"
+            if not good:
+                ok_all = False
+                ctx.fail("R5.duration-unpack", f"unpack|{PARTS[k]}", f"unpack() returns {item!r} for `{PARTS[k]}` under {x.cond_str()[:100]}; required: {what}",
+                         am.loc(un), "x eq duration'P1Y2M3DT4H5M6S'")
+                break
+        if not ok_all:
+            break
+    if ok_all and n_ret:
+        ctx.ok("R5.duration-unpack", "unpack", f"{n_ret} returning paths: sign as matched, each part its group minus the designator, None when absent")
+
+    # ---- py_val: timedelta(days = d + 365.25 y + 30.44 mo, hours, minutes, seconds), negated exactly for '-' ------------
+    it = Interp(repo, env.schema, KindEnv(env.schema))
+    paths = it.explore(lambda _it: (am, pv, [NodeV("node", {"Duration"})], {}, dur.qual))
+    ctx.floor("paths through Duration.py_val", len(paths), 4)
+
+    def part_index(v) -> Optional[int]:
+        if isinstance(v, Sym) and v.op == "elem" and isinstance(v.args[1], int) and isinstance(v.args[0], Sym) and v.args[0].op == "meth" \
+                and v.args[0].args[1] == "unpack" and isinstance(v.args[0].args[0], NodeV):
+            return v.args[1]
+        return None
+
+    class NotLinear(Exception):
+        pass
+
+    def lin(t) -> Dict[Any, float]:
+        """linear form {part index | 'const': coefficient} of an arithmetic term over float(part)"""
+        if isinstance(t, Const) and isinstance(t.v, (int, float)) and not isinstance(t.v, bool):
+            return {"const": float(t.v)} if t.v else {}
+        if isinstance(t, Sym) and t.op == "call" and isinstance(t.args[0], RefV) and t.args[0].qual == "builtins.float" and len(t.args[1]) == 1:
+            a = t.args[1][0]
+            i = part_index(a)
+            if i is not None:
+                return {i: 1.0}
+            if isinstance(a, Const) and isinstance(a.v, (int, float, str)):
+                try:
+                    return {"const": float(a.v)} if float(a.v) else {}
+                except ValueError:
+                    raise NotLinear(repr(t))
+            raise NotLinear(repr(t))
+        if isinstance(t, Sym) and t.op == "unop" and t.args[0] == "USub":
+            return {k: -c for k, c in lin(t.args[-1]).items()}
+        if isinstance(t, Sym) and t.op == "binop":
+            op, l, r = t.args
+            if op in ("+", "-"):
+                a, b = lin(l), lin(r)
+                out = dict(a)
+                for k, c in b.items():
+                    out[k] = out.get(k, 0.0) + (c if op == "+" else -c)
+                return {k: c for k, c in out.items() if c}
+            if op == "*":
+                a, b = lin(l), lin(r)
+                for x, y in ((a, b), (b, a)):
+                    if set(x) <= {"const"}:
+                        c = x.get("const", 0.0)
+                        return {k: v * c for k, v in y.items() if v * c}
+                raise NotLinear(repr(t))
+        raise NotLinear(repr(t)[:120])
+
+    ok_all = True
+    n_ret = 0
+    for x in paths:
+        if x.outcome != "return":
+            q = it.exc_class(x.value)
+            ctx.check(q == "builtins.ValueError", "R5.duration-value", "py_val|raise", f"py_val raises {q}", x.where)
+            continue
+        n_ret += 1
+        v = x.value
+        neg = False
+        if isinstance(v, Sym) and v.op == "binop" and v.args[0] == "*":
+            for a, b in ((v.args[1], v.args[2]), (v.args[2], v.args[1])):
+                if isinstance(a, Const) and a.v == -1:
+                    neg, v = True, b
+                    break
+        elif isinstance(v, Sym) and v.op == "unop" and v.args and v.args[0] == "USub":
+            neg, v = True, v.args[-1]
+        if not (isinstance(v, Sym) and v.op == "call" and isinstance(v.args[0], RefV) and v.args[0].qual == "datetime.timedelta"):
+            ctx.fail("R5.duration-value", "py_val|shape", f"py_val returns {x.value!r}: not a (possibly negated) datetime.timedelta(...)", am.loc(pv))
+            ok_all = False
+            break
+        fields: Dict[str, Any] = {}
+        for name, a in zip(TIMEDELTA_POSITIONAL, v.args[1]):
+            fields[name] = a
+        for name, a in (v.args[2] or ()):
+            fields[name] = a
+        truthy = {k for k in range(0, 7) if any(val is True and c == f"truth(elem(meth(node,'unpack',[]),{k}))" for c, val in x.conds)}
+        want = {"days": {k: DAYS_PER[k] for k in (1, 2, 3) if k in truthy}, "hours": {4: 1.0} if 4 in truthy else {},
+                "minutes": {5: 1.0} if 5 in truthy else {}, "seconds": {6: 1.0} if 6 in truthy else {}}
+        try:
+            got = {name: lin(t) for name, t in fields.items()}
+        except NotLinear as e:
+            ctx.fail("R5.duration-value", "py_val|arithmetic", f"py_val computes {e}: not a linear combination of float(<part>) values", am.loc(pv))
+            ok_all = False
+            break
+        for name in sorted(set(got) | set(want)):
+            g, w = got.get(name, {}), want.get(name, {})
+            same = set(g) == set(w) and all(abs(g[k] - w[k]) < 1e-9 for k in g)
+            if not same:
+                ok_all = False
+                def show(d):
+                    return " + ".join(f"{c:g}*{PARTS[k] if isinstance(k, int) else k}" for k, c in sorted(d.items(), key=lambda kv: str(kv[0]))) or "0"
+                ctx.fail("R5.duration-value", f"py_val|{name}", f"timedelta({name}=...) is {show(g)}; documented: {show(w)} (a year counts 365.25 days, a month 30.44) "
+                         f"when the parts present are {[PARTS[k] for k in sorted(truthy - {0})]}", am.loc(pv), "x eq duration'P1Y1M1DT1H1M1S'")
+                break
+        if not ok_all:
+            break
+        is_minus = any(val is True and c.replace(" ", "") in ("elem(meth(node,'unpack',[]),0)=='-'", "'-'==elem(meth(node,'unpack',[]),0)") for c, val in x.conds)
+        if neg != is_minus:
+            ok_all = False
+            ctx.fail("R5.duration-sign", "Duration.py_val", f"the duration is {'negated' if neg else 'not negated'} on a path where the sign "
+                     f"{'is' if is_minus else 'is not known to be'} '-' ({x.cond_str()[-160:]}): only a leading '-' negates", am.loc(pv),
+                     "x eq duration'+P1D'" if neg else "x eq duration'-P1D'")
+            break
+    if ok_all and n_ret:
+        ctx.ok("R5.duration-value", "py_val", f"{n_ret} paths: days = days + 365.25*years + 30.44*months; hours, minutes, seconds; negated exactly for '-'")
+        ctx.ok("R5.duration-sign", "Duration.py_val", "negated exactly when the sign is '-'")
